@@ -329,4 +329,19 @@ pub mod verif_api {
     pub fn handle_event(roots: Vec<PathBuf>, events: EventSender, event: notify::Event) {
         super::watcher::verif_handle_event(roots, events, event)
     }
+
+    /// The real event handler, kept alive across events.
+    pub struct TestHandler(super::watcher::VerifHandler);
+
+    impl TestHandler {
+        /// A handler for the given watched roots, bound to `events`.
+        pub fn new(roots: Vec<PathBuf>, events: EventSender) -> Self {
+            TestHandler(super::watcher::VerifHandler::new(roots, events))
+        }
+
+        /// Feeds one `notify` event to the handler.
+        pub fn handle(&mut self, event: notify::Event) {
+            self.0.handle(event)
+        }
+    }
 }
